@@ -236,7 +236,13 @@ def run(ctx):
             for h in recips:
                 obj.add_recipient(copy.deepcopy(h))
             tok = jwe.encrypt_json(obj, kset, registry=reg)
-            out = jwe.decrypt_json(tok, kset, registry=reg)
+            kobs, (klog, knd) = J.do_decrypt_k("json", tok, kset)
+            if not knd and J.table_chars(klog) < 40000:      # decryption with KeySet resolution replayed in the model
+                cases.append(J.case_dec_k("json", tok, kset, None, True, kobs, klog))
+                meta.append(("keyset-dec", "%s/%s/%s" % (ser, where, "+".join(algs))))
+            if kobs[0] != "ok":
+                raise kobs[2]
+            out = kobs[3]
             good = out.plaintext == pt and [r.header.get("kid") if r.header else None for r in out.recipients] == \
                 [h.get("kid") for h in recips] and out.protected == protected and (out.unprotected or None) == unprotected
             errtxt = "plaintext/headers differ"
@@ -286,6 +292,23 @@ def run(ctx):
                 refused(spec, "1pu-kw:%s/%s/%s" % (a, e, s), "InvalidEncryptionAlgorithmError")
         spec = J.make_spec(K, rng, "general", ["A128KW", a], "A128GCM", plaintext=b"never sent")
         refused(spec, "1pu-kw:second-recipient:%s" % a, "InvalidEncryptionAlgorithmError")
+
+    # an RSA key below 2048 bits is refused at encryption time (RFC 7518 4.2 / 4.3)
+    try:
+        from cryptography.hazmat.primitives.asymmetric import rsa as _rsa
+        from joserfc.jwk import RSAKey
+        small = RSAKey.import_key(_rsa.generate_private_key(65537, 1024).private_numbers().private_key().private_bytes(
+            __import__("cryptography").hazmat.primitives.serialization.Encoding.PEM,
+            __import__("cryptography").hazmat.primitives.serialization.PrivateFormat.PKCS8,
+            __import__("cryptography").hazmat.primitives.serialization.NoEncryption()))
+    except Exception:  # noqa
+        small = None
+    if small is not None:
+        for a in J.RSA_ALGS:
+            for s_ in sers:
+                spec = J.make_spec(K, rng, s_, [a], "A128GCM", plaintext=b"never sent")
+                spec["recips"] = [(h, small) for h, _ in spec["recips"]]
+                refused(spec, "rsa-1024:%s/%s" % (a, s_), "InvalidKeyLengthError")
 
     ctx.coverage["input_distribution"] = dist
     ctx.coverage["rule"] = ("decrypt(encrypt(x)) = x, headers = given + exactly the algorithm's members in add_header's position; "
